@@ -679,6 +679,11 @@ func executePlannedSelection(eCtx *executionContext, sp *selectionPlan, source i
 		if !ok {
 			continue
 		}
+		if path == nil && eCtx.plan != nil && eCtx.plan.isMutation {
+			// Serial execution: everything this top-level field deferred
+			// finishes before the next top-level field starts.
+			resolved = dethunkValueDepthFirst(resolved)
+		}
 		finalResults[fp.responseKey] = resolved
 	}
 	return finalResults
